@@ -296,3 +296,31 @@ def flatten_origins(org):
         else:
             res.add(o)
     return res
+
+
+
+def callers_index(prog):
+    """callee did -> set of caller fn dids (resolved target, else the named callee)."""
+    idx = {}
+    for fn, body, tag in iter_bodies(prog):
+        for bi, t, fnj, res in calls_in(body):
+            tgt = res["fn"] if res else fnj
+            idx.setdefault(tgt["did"], set()).add(fn["did"])
+    return idx
+
+
+def private_helper_of(prog, fn, allowed_pred, idx=None, depth=0):
+    """True iff fn is a non-exported function all of whose call sites lie (transitively) inside allowed functions."""
+    idx = idx if idx is not None else callers_index(prog)
+    if fn.get("exported", True) or depth > 4:
+        return False
+    callers = idx.get(fn["did"], set())
+    if not callers:
+        return False
+    for c in callers:
+        cf = prog.fns.get(c)
+        if cf is None:
+            return False
+        if not (allowed_pred(cf) or private_helper_of(prog, cf, allowed_pred, idx, depth + 1)):
+            return False
+    return True
